@@ -87,6 +87,7 @@ func (x *Exec) daysFromCivil(y, m, d *smt.Term) *smt.Term {
 func registerTime(p *Program) {
 	p.Interpret["google.golang.org/protobuf/types/known/timestamppb"] = true
 	p.Interpret["google.golang.org/protobuf/types/known/durationpb"] = true
+	p.Interpret["github.com/cosmos/gogoproto/types"] = true
 	T := "(time.Time)."
 	cmp := func(f func(x *Exec, a, b TimeV) *smt.Term) Intrinsic {
 		return func(x *Exec, c *CallCtx) Value {
